@@ -1,5 +1,5 @@
 (* Pinned statements of C05: re-checked on every run. *)
-From SF Require Import Base.Prelude Gen.Generated Unsized.Types Unsized.Parse Unsized.Machine Unsized.Ops Unsized.Run Unsized.Proofs.EncodeParse Unsized.Proofs.Mem Unsized.Proofs.Notify Unsized.Proofs.Flat Unsized.Proofs.Layout Unsized.Proofs.Observe Unsized.Proofs.Path Unsized.Proofs.Context Unsized.Proofs.FocusOps Unsized.Proofs.NotifyInside Unsized.Proofs.Resize Unsized.Proofs.GenOps Unsized.Proofs.History Unsized.Proofs.Init Unsized.Proofs.History2 Unsized.Proofs.ExecTie Unsized.Proofs.InitKinds Properties.C05.
+From SF Require Import Base.Prelude Gen.Generated Unsized.Types Unsized.Parse Unsized.Machine Unsized.Ops Unsized.Run Unsized.Proofs.EncodeParse Unsized.Proofs.Mem Unsized.Proofs.Notify Unsized.Proofs.Flat Unsized.Proofs.Layout Unsized.Proofs.Observe Unsized.Proofs.Path Unsized.Proofs.Context Unsized.Proofs.FocusOps Unsized.Proofs.NotifyInside Unsized.Proofs.Resize Unsized.Proofs.GenOps Unsized.Proofs.History Unsized.Proofs.Init Unsized.Proofs.History2 Unsized.Proofs.ExecTie Unsized.Proofs.InitKinds Unsized.SizedInit Unsized.Proofs.SizedInitProofs Properties.C05.
 
 Check (C05_encode_size :
  forall t v, wf t v = true -> zlen (encode t v) = byte_size t v).
@@ -32,6 +32,21 @@ Check (C05_every_initializer_exact :
 Check (C05_init_array_too_long :
   forall c lw kind n, (kind = 1 /\ n = 3) \/ (kind = 2 /\ n = 300) -> 256 ^ Z.of_nat lw <= n ->
     init_bytes (TList c lw) kind = Err E_TOPRIM).
+Check (C05_sized_init_exact :
+  forall t arg dst,
+    sized_ok t -> arg_ok t arg -> (s_size t <= length dst)%nat ->
+    exists after rest,
+      sized_init t arg dst = Some (after, rest) /\
+      (length dst - length rest = s_size t)%nat /\
+      firstn (s_size t) after = denoted t arg /\
+      skipn (s_size t) after = skipn (s_size t) dst /\
+      length after = length dst /\
+      sized_parse t (firstn (s_size t) after) = Some (denoted t arg)).
+Check (C05_sized_default_init_writes_the_default :
+  forall t dst after rest,
+    sized_ok t -> (s_size t <= length dst)%nat -> sized_init t None dst = Some (after, rest) ->
+    firstn (s_size t) after = s_default t /\
+    (s_default t <> repeat 0 (s_size t) -> firstn (s_size t) after <> repeat 0 (s_size t))).
 
 Print Assumptions C05_encode_size.
 Print Assumptions C05_roundtrip.
@@ -43,3 +58,5 @@ Print Assumptions C05_init_then_deserialize.
 Print Assumptions C05_init_array_exact.
 Print Assumptions C05_every_initializer_exact.
 Print Assumptions C05_init_array_too_long.
+Print Assumptions C05_sized_init_exact.
+Print Assumptions C05_sized_default_init_writes_the_default.
